@@ -20,8 +20,8 @@ from ginsim import cfgtext, probes, shrink, vfs, world
 
 ID = 'C14'
 LEVEL = 'fault_enumeration'
-QUICK_RUNS = 2500
-THOROUGH_RUNS = 50000
+QUICK_RUNS = 6000
+THOROUGH_RUNS = 150000
 SHRINK_BUDGET = 200
 RULE = ('run i draws from Random("<seed>/C14/<i>") a DAG of 1-6 config files '
         '(conflicting bindings before/after includes, repeated and diamond '
